@@ -194,7 +194,9 @@ class World:
         if "a" in ref:
             return self.SA[ref["a"]]
         if "c" in ref:
-            return ref["c"]
+            # MyGrad turns a Python scalar into a 0-d array (a constant tensor) before the kernel
+            # sees it; whether that promotes like NumPy's weak scalars is C03's question, not ours
+            return np.asarray(ref["c"])
         if "n" in ref:
             return dec_arr(ref["n"])
         raise KeyError(ref)
@@ -652,6 +654,8 @@ class World:
                     foreign = True
         if any(("t" in r and (self.info[r["t"]].foreign)) for r in refs) and fam is not None:
             foreign = True
+        if sout.size == 0:
+            foreign = True  # memory sharing of empty arrays is undefined: never judged under C04
         i = self._new_tinfo(h, t, const, nid, fam=fam, ids=ids, foreign=foreign, orig_w=orig_w)
         if fam is not None:
             # original flag of a view: the owner's (DESIGN C08) unless natively read-only (broadcast)
@@ -762,6 +766,8 @@ class World:
             return Outcome("nofail")
         if not same_obj:
             self.violation("C04", "C04.identity", f"in-place {form} on handle {h} returned a different object")
+        if len(info.fam.members) > 1:
+            self.probe("c04.inplace_on_family")
         # operands of an in-place statement are locked only once it succeeded (the kernel runs
         # under MyGrad's internal mem_guard_off and is force-locked afterwards)
         self._mark_entered(refs)
@@ -951,6 +957,7 @@ class World:
             "const": info.const,
             "status": None,
             "pre_grads": {},
+            "pre_ids": {k for k, i in self.info.items() if i.ids is not None},
         }
         for k, tt in self.T.items():
             g = tt.grad
@@ -962,6 +969,13 @@ class World:
                 del ga
             del g
         self.last_backward = rec
+        if live and self.use_tape and not info.const:
+            try:
+                self._expect_grads(rec)
+            except Exception as e:  # the model could not produce an expectation: nothing is judged
+                rec["expected"] = None
+                rec["model_error"] = f"{type(e).__name__}: {e}"
+                self.count("tape.model_error")
         try:
             if seed is None:
                 t.backward()
@@ -988,6 +1002,7 @@ class World:
         """clear_graph from handle h: every upstream version is severed, families of cleared owners
         dissolve (DESIGN section 1/3)."""
         self.clock += 1
+        self.tape.clock = self.clock
         sev = self.tape.sever_upstream(self.info[h].nid)
         rec = self.last_backward
         if rec is not None and rec.get("h") == h:
@@ -1012,6 +1027,52 @@ class World:
         for k, i in self.info.items():
             if i.nid in sev:
                 i.stale = True
+
+    def _expect_grads(self, rec):
+        """M2 expectation for every caller-held handle, computed on the state before the call:
+        rec["expected"][k] = ("none",) | ("keep",) | ("val", array)  (DESIGN 3/C01,C05,C06)"""
+        tp = self.tape
+        root = rec["nid"]
+        rec["tainted"] = tp.tainted(root)
+        cot, inf = tp.backward(root, rec["seed"])
+        rec["nondiff"] = inf["nondiff"]
+        rec["opaque"] = inf["opaque"]
+        reach = tp.upstream(root)
+        exp = {}
+        scale = 1.0
+        for v in cot.values():
+            if v.size:
+                m = float(np.max(np.abs(v)))
+                if np.isfinite(m) and m > scale:
+                    scale = m
+        rec["scale"] = scale
+        for k, i in self.info.items():
+            if i.const:
+                exp[k] = ("none",)
+                continue
+            fam = i.fam
+            if i.ids is None:
+                if i.nid in reach:
+                    g = cot.get(i.nid)
+                    exp[k] = ("val", g) if g is not None else ("none",)
+                else:
+                    exp[k] = ("keep",)
+            else:
+                on = fam.owner_nid
+                if on in reach and not tp.nodes[on].const:
+                    g = cot.get(on)
+                    if g is None:
+                        exp[k] = ("none",)
+                    else:
+                        exp[k] = ("val", g.ravel()[i.ids])
+                elif i.nid in reach:
+                    # a non-constant view of a constant owner that L depends on
+                    g = cot.get(i.nid)
+                    exp[k] = ("val", g) if g is not None else ("none",)
+                else:
+                    exp[k] = ("keep",)
+        rec["expected"] = exp
+        rec["reach_handles"] = [k for k, i in self.info.items() if i.nid in reach]
 
     def ev_clear(self, ev):
         h = ev["tgt"]
